@@ -629,7 +629,8 @@ let end_monitors hid (st : istate) quiescent (nb : sx) (gets : string) =
           if (t1, i1) < k2 && List.assoc_opt k2 rs = Some (Printf.sprintf "rqprop:%d:%d" t1 i1) then begin
             let wedged = List.exists (fun (wi, wt) -> wt = t1 && (wi = i1 || wi = snd k2)) (c09_wedged w) in
             (* the member that is COMMITTED without apply phase, and whether its transaction is parked at the apply gate
-               (SERIALIZABLE predecessor not APPLIED yet, F-02d) *)
+               (SERIALIZABLE predecessor not APPLIED yet); excused only while a device is away (F-C09-22): with every target
+               connected a pair at the fixed point is a livelock *)
             let gated = List.exists (fun (tt, ii) ->
                 match find_assoc (tt, ii) props, find_assoc ii txs with
                 | Some p, Some tx -> p.p_commit = Some Done && p.p_apply = None && tx.t_commit = Some Done && tx.t_apply = None && tx.t_abort = None
@@ -638,7 +639,7 @@ let end_monitors hid (st : istate) quiescent (nb : sx) (gets : string) =
               | Some p, Some tx -> Printf.sprintf "%d-%d[commit=%s apply=%s abort=%s; tx %s commit=%s apply=%s]" tt ii (s_ph p.p_commit) (s_ph p.p_apply) (s_ph p.p_abort)
                                      (s_ts tx.t_state) (s_ph tx.t_commit) (s_ph tx.t_apply)
               | _ -> Printf.sprintf "%d-%d[?]" tt ii in
-            specviol hid (if wedged then "c09_unapplied_behind_failed_tx" else if gated then "c09_requeue_pair_behind_gate" else "c09_requeue_pair")
+            specviol hid (if wedged then "c09_unapplied_behind_failed_tx" else if gated && not all_connected then "c09_requeue_pair_behind_gate" else "c09_requeue_pair")
               (Printf.sprintf "at the fixed point the reconciles of proposals %s and %s do nothing and re-queue each other" (st (t1, i1)) (st k2))
           end
         | _ -> ()) rs
